@@ -34,7 +34,7 @@ class Recorder:
         import cgsmiles.resolve as R
         import cgsmiles.sample as SA
         import cgsmiles.pysmiles_utils as PU
-        self.mods = (R, SA)
+        self.mods = (R, SA, PU)
         self.orig = PU.rebuild_h_atoms
         self.saved = [(m, m.rebuild_h_atoms) for m in self.mods]
         helper = pysmiles.smiles_helper
@@ -243,6 +243,171 @@ def gen_case(rng):
     return c
 
 
+# ------------------------------------------------------------------------------ helper stream
+# Direct validation of the modelled third-party helpers (pysmiles valence / bonds_missing / fill_valence /
+# add_explicit_hydrogens / remove_explicit_hydrogens) against the installed library, and of
+# read_fragment_smiles' post-processing and compute_mass against the implementation, on small random
+# graphs / fragment texts derived from the case's seed.
+FRAG_TEXTS = ['CC', 'C[H]', '[H]C([H])([H])C', '[H]', 'H', 'O', '[OH2]', 'C[NH3+]', 'C(=O)[O-]', 'c1ccccc1', 'c1cc[nH]c1',
+              '[$]CC[$]', '[>]CC(C)[<]', 'C[H;w=0.5]', 'C([H;x=a])O', '[C;0][$]', '[C;w=0.25]C[$]=', '[H][H]', '[2H]C',
+              '[H]O[H]', 'C[H:1]', '[H+]', 'C#C[H]', '[H]C=O', '[$][H]', 'N[H;q=1]', '[OH;0.5][C;0.1][$]C[$]O', '[CH3][H]',
+              'C1CC1[H]', '[$]c1ccccc1[H;w=0]', 'F/C=C/F', '[Na+]', 'C[N+](C)(C)[H]', '[H]N([H])C(=O)C']
+
+
+def rand_helper_graph(rng, for_fill=True):
+    n = rng.randint(1, 6)
+    keys = sorted(rng.sample(range(0, 12), n))
+    rng.shuffle(keys)
+    G = nx.Graph()
+    for k in keys:
+        d = {}
+        r = rng.random()
+        if r < 0.85:
+            d['element'] = rng.choice(['C', 'C', 'C', 'N', 'O', 'H', 'H', 'S', 'P', 'B', 'F', 'Cl', 'Na', 'Mg', 'Si', 'Br', 'I'])
+            if not for_fill and rng.random() < 0.1:
+                d['element'] = d['element'].lower()
+        elif r < 0.93:
+            d['element'] = '*'
+        if rng.random() < 0.7:
+            d['charge'] = rng.choice([0, 0, 0, 1, -1, 2, -2])
+        if rng.random() < 0.6:
+            d['hcount'] = rng.choice([0, 0, 1, 2, 3])
+        if rng.random() < 0.5:
+            d['aromatic'] = rng.random() < 0.3
+        if d.get('element') == 'H' and rng.random() < 0.1:
+            d[rng.choice(['isotope', 'class'])] = rng.choice([0, 1, 2])
+        if rng.random() < 0.15:
+            d['bonding'] = ['$1']
+        G.add_node(k, **d)
+    for _ in range(rng.randint(0, n + 2)):
+        a, b = rng.choice(keys), rng.choice(keys)
+        if a == b and rng.random() < 0.9:
+            continue
+        o = rng.choice([None, 1, 1, 1, 2, 3, 1.5, 1.5, 0])
+        if o is None:
+            G.add_edge(a, b)
+        else:
+            G.add_edge(a, b, order=o)
+    if rng.random() < 0.15:
+        k = rng.choice(keys)
+        G.nodes[k]['rs_isomer'] = tuple(rng.choice(keys + [k, k]) for _ in range(4))
+    return G
+
+
+def call(f, *a, **k):
+    try:
+        return f(*a, **k), None
+    except Exception as exc:       # noqa: BLE001
+        return None, type(exc).__name__
+
+
+def helper_extras(seed):
+    """list of Gallina `extra` terms + a short summary (counts by constructor)"""
+    import pysmiles
+    from pysmiles import smiles_helper as SH
+    import cgsmiles.pysmiles_utils as PU
+    import sys as _sys
+    import cgsmiles  # noqa: F401
+    RF = _sys.modules['cgsmiles.read_fragments']   # the package re-exports a function of the same name
+    rng = _random.Random(seed)
+    out, summary = [], {}
+
+    def add(tag, term):
+        out.append(term)
+        summary[tag] = summary.get(tag, 0) + 1
+
+    def ores(G, err):
+        return 'None' if err else '(Some %s)' % lit.obs_graph(G)
+    for _ in range(3):
+        G = rand_helper_graph(rng, for_fill=False)
+        for k in list(G.nodes)[:3]:
+            a = dict(G.nodes[k])
+            q = a.get('charge', 0)
+            e = a.get('element', '*')
+            if e != '*' and (e.capitalize() not in ELEMENTS or q not in CHARGES):
+                continue
+            v, err = call(SH.valence, a)
+            add('valence', '(XValence %s %s)' % (lit.attrs(a), 'None' if err else '(Some %s)' % lit.lst([lit.z(x) for x in v])))
+    for _ in range(3):
+        G = rand_helper_graph(rng)
+        if not in_table_or_star(G):
+            continue
+        k = rng.choice(list(G.nodes))
+        v, err = call(SH.bonds_missing, G, k)
+        add('bonds_missing', '(XMissing %s %s %s)' % (lit.nxgraph(G), lit.z(k), 'None' if err else '(Some %s)' % lit.z(v)))
+        respect = rng.random() < 0.5
+        H = copy.deepcopy(G)
+        _, err = call(SH.fill_valence, H, respect_hcount=respect)
+        add('fill_valence', '(XFill %s %s %s)' % (lit.b(respect), lit.nxgraph(G), ores(H, err)))
+        H = copy.deepcopy(G)
+        _, err = call(SH.add_explicit_hydrogens, H)
+        add('add_explicit_hydrogens', '(XAddH %s %s)' % (lit.nxgraph(G), ores(H, err)))
+        H = copy.deepcopy(G)
+        if not any(d.get('ez_isomer') for _, d in H.nodes(data=True)):
+            _, err = call(SH.remove_explicit_hydrogens, H)
+            add('remove_explicit_hydrogens', '(XRemoveH %s %s)' % (lit.nxgraph(G), ores(H, err)))
+    # read_fragment_smiles: everything after pysmiles.read_smiles (its result is the transcript)
+    for _ in range(3):
+        text = rng.choice(FRAG_TEXTS)
+        name = rng.choice(['A', 'PEO', 'H'])
+        try:
+            smile, bonding, ez, attributes = RF.strip_bonding_descriptors(text)
+        except Exception:          # noqa: BLE001
+            continue
+        seen = {}
+        orig = pysmiles.read_smiles
+
+        def wrapped(*a, **k):
+            g = orig(*a, **k)
+            seen['g0'] = copy.deepcopy(g)
+            return g
+        pysmiles.read_smiles = wrapped
+        try:
+            res, err = call(PU.read_fragment_smiles, smile, name, bonding, ez, attributes)
+        finally:
+            pysmiles.read_smiles = orig
+        if 'g0' not in seen:
+            continue
+        g0 = seen['g0']
+        if any(d.get('element') == 'H' and d.get('ez_isomer') for _, d in g0.nodes(data=True)):
+            continue                # E/Z bookkeeping of remove_explicit_hydrogens is outside the model
+        try:
+            term = ('(XFragment %s %s %s %s %s %s)'
+                    % (lit.nxgraph(g0), lit.s(name),
+                       lit.lst([lit.pair(lit.z(k), lit.pyval(v)) for k, v in bonding.items()]),
+                       lit.lst([lit.pair(lit.z(k), lit.pyval(v)) for k, v in ez.items()]),
+                       lit.lst([lit.pair(lit.z(k), lit.attrs(v)) for k, v in attributes.items()]),
+                       ores(res, err)))
+        except (TypeError, ValueError):
+            continue
+        add('read_fragment_smiles', term)
+        # compute_mass of the fragment that was just read
+        if res is not None and in_table(res) and modelable(res):
+            rec = Recorder().install()
+            try:
+                m, err = call(PU.compute_mass, res)
+            finally:
+                rec.remove()
+            if len(rec.calls) == 1 and rec.calls[0]['car'] != 'not called':
+                car = rec.calls[0]['car']
+                add('compute_mass', '(XMass %s %s %s)'
+                    % (lit.nxgraph(res), 'None' if car is None else '(Some %s)' % lit.nxgraph(car),
+                       'None' if err else '(Some (%s)%%float)' % float(m).hex()))
+    return out, summary
+
+
+def in_table_or_star(G):
+    for _, d in G.nodes(data=True):
+        e = d.get('element', '*')
+        q = d.get('charge', 0)
+        if e == '*':
+            continue
+        if not isinstance(e, str) or e.capitalize() not in ELEMENTS or q not in CHARGES:
+            return False
+    return True
+
+
+
 # ------------------------------------------------------------------------------ the property object
 class C09(common.Prop):
     id = 'C09'
@@ -253,7 +418,7 @@ class C09(common.Prop):
                  'resolve_all()/sample(), pysmiles\' aromaticity correction entering as a recorded transcript')
     vo_deps = ['theories/Hydro/HydroCheck.vo']
     prop_file = 'theories/Properties/C09.v'
-    case_requires = ('From Coq Require Import String.\nFrom Coq Require Import List Ascii ZArith Bool.\n'
+    case_requires = ('From Coq Require Import String.\nFrom Coq Require Import List Ascii ZArith Bool Floats.\n'
                      'From CGV Require Import Base.PyBase Base.PyVal Base.NxGraph Hydro.Hydrogens Hydro.HydroCheck.')
     shard = 12
     quick_cases = 150
@@ -283,9 +448,18 @@ class C09(common.Prop):
         return out
 
     def generate(self, ctx, n):
-        return [gen_case(ctx.rng) for _ in range(n)]
+        out = []
+        for _ in range(n):
+            if ctx.rng.random() < 0.25:
+                out.append({'kind': 'helpers', 'cls': 'helpers', 'seed': ctx.rng.randint(0, 10 ** 9)})
+            else:
+                out.append(gen_case(ctx.rng))
+        return out
 
     def run_impl(self, case):
+        if case['kind'] == 'helpers':
+            terms, summary = helper_extras(case['seed'])
+            return {'helpers': terms, 'summary': summary}
         calls, final, exc = drive(case)
         if not calls:
             return {'skip': exc or 'rebuild_h_atoms not reached'}
@@ -311,9 +485,13 @@ class C09(common.Prop):
         return out
 
     def nontrivial(self, case, impl):
+        if 'helpers' in impl:
+            return bool(impl['helpers'])
         return 'skip' not in impl and impl.get('final') is not None
 
     def case_class(self, case, impl):
+        if 'helpers' in impl:
+            return 'helpers(' + ','.join('%s:%d' % kv for kv in sorted(impl['summary'].items())) + ')'
         if 'skip' in impl:
             return 'skipped:' + str(impl['skip'])
         if impl.get('exc'):
@@ -326,9 +504,12 @@ class C09(common.Prop):
         return {k: v for k, v in case.items() if k != 'cls'}
 
     def coq_case(self, case, impl):
+        if 'helpers' in impl:
+            return ('{| c_skip := true; c_before := []; c_car := None; c_after := None; c_final := None; c_extra := %s |}'
+                    % lit.lst(impl['helpers']))
         if 'skip' in impl:
-            return '{| c_skip := true; c_before := []; c_car := None; c_after := None; c_final := None |}'
-        return ('{| c_skip := false; c_before := %s; c_car := %s; c_after := %s; c_final := %s |}'
+            return '{| c_skip := true; c_before := []; c_car := None; c_after := None; c_final := None; c_extra := [] |}'
+        return ('{| c_skip := false; c_before := %s; c_car := %s; c_after := %s; c_final := %s; c_extra := [] |}'
                 % (impl['before'], lit.opt(impl['car'], lambda x: x), lit.opt(impl['after'], lambda x: x),
                    lit.opt(impl['final'], lambda x: x)))
 
